@@ -3,7 +3,7 @@
    OP 1: read_real_by_type for TYPE 0..7 on arbitrary bytes equals the reference reading of the grammar
          (unsigned integer / reciprocal / ratio as the nearest double, IEEE float32 / float64 little endian). */
 #include "harness.h"
-double my_trunc(double); double my_fabs(double); double uf_div(double, double);
+double my_trunc(double); double my_fabs(double); double uf_div(double, double); double my_ceil(double); double my_floor(double); int64_t my_llround(double); int64_t my_lround(double);
 #include "prologue.h"
 #include "vfile.h"
 #include "zstub.h"
@@ -23,6 +23,9 @@ int main(void) {
   buf = malloc(BUF); memset(buf, 0xA5, BUF);
 #if OP == 0
   uint64_t b = nd_u64(); ASSUME(((b >> 52) & 0x7ff) != 0x7ff);      /* finite */
+#ifdef BIG_INTEGRAL
+  ASSUME(((b >> 52) & 0x7ff) >= 1023 + 52);      /* retry: |v| >= 2^52, every such double is integral - no division is involved */
+#endif
 #ifdef INTEGRAL_ONLY
   { double t = bc_i64_f(b); ASSUME(t == (double)(int64_t)t && t > -1e15 && t < 1e15); }
 #endif
